@@ -19,7 +19,7 @@ B = h.bounds(
 )
 PATHS = ["a", "b", "a.a", "a.b", "b.a", "a.a.a", "a.c", "c", "a.b.a", "", "a.a.b", "c.a",
          "a.a.a.a", "b.a.a", "a.a.a.b", "a.b.c.a"]
-BOUNDS = dict(vars(B), paths=PATHS, meaning="contexts over keys {a, b} to depth 3 with leaves 1 and "
+BOUNDS = dict(vars(B), paths=PATHS, meaning="contexts over keys {a, b} to depth 3 with leaves 1, None and "
               "'b' (a string equal to a key name), scalars where a path expects a dictionary; "
               "key paths = first NPATH entries of `paths` (length 0..4: present, absent, through "
               "a scalar) in dotted, list and nested-dict notation; arbitrary strings of length "
@@ -52,6 +52,8 @@ def build(ka, kaa, kab, kb):
             sub["a"] = "b"
         elif kaa == 3:
             sub["a"] = {"a": 1}
+        elif kaa == 4:
+            sub["a"] = None
         if kab == 1:
             sub["b"] = 1
         elif kab == 2:
@@ -61,6 +63,8 @@ def build(ka, kaa, kab, kb):
         d["b"] = 1
     elif kb == 2:
         d["b"] = {"a": 1}
+    elif kb == 3:
+        d["b"] = None
     return d
 
 
@@ -144,7 +148,7 @@ def check_roundtrip(p: int) -> bool:
 
 def check_lookup(ka: int, kaa: int, kab: int, kb: int, p: int) -> bool:
     """
-    pre: 0 <= ka <= 3 and 0 <= kaa <= 3 and 0 <= kab <= 2 and 0 <= kb <= 2
+    pre: 0 <= ka <= 3 and 0 <= kaa <= 4 and 0 <= kab <= 2 and 0 <= kb <= 3
     pre: 0 <= p < B.NPATH
     pre: h.in_shard(p)
     post: _
@@ -351,7 +355,7 @@ SEGPATH = [None, "a", "a.a", "b", None, "a.b", "c"]
 def check_format_render(ka: int, kaa: int, kab: int, kb: int, n: int,
                         s0: int, s1: int, s2: int) -> bool:
     """
-    pre: 0 <= ka <= 3 and 0 <= kaa <= 2 and 0 <= kab <= 1 and 0 <= kb <= 1
+    pre: 0 <= ka <= 3 and 0 <= kaa <= 4 and kaa != 3 and 0 <= kab <= 1 and 0 <= kb <= 3 and kb != 2
     pre: 0 <= n <= B.SEG
     pre: 0 <= s0 <= 6 and 0 <= s1 <= 6 and 0 <= s2 <= 6
     pre: h.in_shard(s0 + 7 * (ka % 2))
@@ -466,7 +470,7 @@ def check_update_context(ka: int, kaa: int, kab: int, kb: int, sub: int, u: int,
                          value: bool, dflt: int, skip: bool, rais: bool,
                          recursively: bool, with_ctx: bool) -> bool:
     """
-    pre: 0 <= ka <= 3 and 0 <= kaa <= B.UKAA and 0 <= kab <= 1 and 0 <= kb <= B.UKB
+    pre: 0 <= ka <= 3 and 0 <= kaa <= B.UKAA + 1 and 0 <= kab <= 1 and (0 <= kb <= B.UKB or kb == 3)
     pre: 0 <= sub < B.NSUB
     pre: 0 <= u <= 7
     pre: 0 <= dflt <= 2
